@@ -87,6 +87,9 @@ def run_driver(lines: list[str], timeout: int = 3600) -> list[str]:
     """Run the extracted model on the given case lines; one output line per input line."""
     if not lines:
         return []
+    if os.environ.get("VERIF_DUMP_LINES"):          # debugging aid: keep the case lines sent to the model
+        with open(os.environ["VERIF_DUMP_LINES"], "a") as f_:
+            f_.write("\n".join(lines) + "\n#----\n")
     p = subprocess.run(["/bin/bash", "-c", f"ulimit -s unlimited 2>/dev/null; exec {DRIVER}"],
                        input="\n".join(lines) + "\n", capture_output=True, text=True, timeout=timeout)
     if p.returncode != 0:
